@@ -102,8 +102,38 @@ let elf_model (fields : string list) (ops : string list) : string list =
         | _ -> "?") ops
   | _ -> failwith "bad elf fields"
 
+(* SADUMP: "bs:sub:bb:db:maxm:hdr_pos" and "A=<rle of the file from mem_off on>" *)
+let sadump_model (fields : string list) (ops : string list) : string list =
+  match fields with
+  | [g; a] ->
+      let nums = Stdlib.List.map n_of_hex (split_on ':' g) in
+      (match nums with
+       | [bs; sub; bb; db; maxm; hdr] ->
+           let area = parse_rle (String.sub a 2 (String.length a - 2)) in
+           if Stdlib.List.length area > 20000 then ["-"] else
+           let geo = SadGeomModel.sadump_geom hdr bs sub bb db in
+           let (max1, fr) = SadGeomModel.sd_file_regions BinNums.N0 area geo maxm [] in
+           let file_map = match fr with
+             | (ROk rs, _) -> { regions = rs; start_pfn = BinNums.N0;
+                                end_pfn = BinNat.N.mul geo.SadGeomModel.sg_bmp_len (n_of_int 8) }
+             | _ -> failwith "model: sadump file regions" in
+           (* memory.pagemap is built lazily; its clipping of max_pfn happens at the first
+              memory.pagemap query: the driver asks for the attribute before any query *)
+           let (max2, mr) = SadGeomModel.sd_mem_regions BinNums.N0 area geo max1 [] in
+           let mem_map = match mr with
+             | (ROk rs, _) -> { regions = rs; start_pfn = BinNums.N0;
+                                end_pfn = BinNat.N.mul geo.SadGeomModel.sg_mem_size (n_of_int 8) }
+             | _ -> failwith "model: sadump memory regions" in
+           Stdlib.List.map (fun o ->
+             if o.[0] = 'R' then
+               show_res (fun b -> if b then "ok" else "nodata")
+                 (SadGeomModel.sd_page_stored file_map max2 (n_of_hex (String.sub o 2 (String.length o - 2))))
+             else maps_op [if o.[0] = 'F' then file_map else mem_map] (String.sub o 1 (String.length o - 1))) ops
+       | _ -> failwith "bad sadump geometry")
+  | _ -> ["-"]
+
 let model_hooks : (string * (string list -> string list -> string list)) list ref =
-  ref [ "d", diskdump_model; "e", elf_model ]
+  ref [ "d", diskdump_model; "e", elf_model; "s", sadump_model ]
 
 let run_case (line : string) : string =
   let (hd, rest) = split_at line " T " in
